@@ -107,6 +107,13 @@ CHECKS['C16'] = dict(
     note='Trusted: operator table and sort checker ddv/typed.py (self-tested against each other). Numerals only occur in Int positions and decimals in Real positions; every symbol is bound once.',
     design='3/C16')
 
+CHECKS['C17'] = dict(
+    level='exploration', engine='ENUM',
+    technique='bounded-exhaustive enumeration of rewrite instances x all assignments over finite domains, against an independent sort checker and evaluator',
+    text='For each of the 21 mutators the property lists, all well-sorted instances within the bounds (operands from variables, constants in every notation #b/#x/(_ bvN w) and compound terms; widths 1-4 and 8; every well-sorted index value for extract/extend; binary forms where the documentation says so; for inlining and let every choice of actual arguments / bound terms over the formals\' own names, parallel bindings and shadowing inner binders; selector-of-constructor for a singular and a plural datatype declaration; FP sort abbreviation incl. near misses) are offered to the real filter; every proposal of the real mutations() (3.5 k quick) must type-check to the same sort and evaluate to the same value under every assignment (240 k evaluations), for top-level rewrites every defined symbol must keep its value. The run fails as vacuous if any listed mutator produced no proposal.',
+    note='Trusted: sort checker ddv/typed.py and evaluator ddv/evalsmt.py (self-tested); quantifiers range over finite domains (the identities checked hold over any fixed domain); integer division by zero is skipped as undefined.',
+    design='3/C17')
+
 ENGINES = [
     dict(name='GRAPH', path='ddv/graph.py', serves_properties=['C03', 'C04', 'C15'],
          kind_free_text='explicit-state breadth-first search of the rewrite graph (real mutators as transition relation), SCC detection, per-call work meter'),
